@@ -429,6 +429,8 @@ def check(prog, run):
 
     check_default_resolver(prog, run)
     check_context_threading(prog, run, "V1")
+    from . import c17
+    c17.check_coerced_variables(prog, run, "V2", [prog.get_func("py_gql.execution.execute", "execute")])
     from .. import typedrule
     typedrule.run_rule(prog, run, "T1", "execution/** and utilities/collect_fields.py",
                        "operation selection and field collection must hand the executor the node kinds it expects (an AttributeError "
